@@ -411,6 +411,12 @@ def scrambled_user_specs(draw):
 
 def lib_cases(max_L, max_L_2d, max_color, max_n):
     cases = domain.all_code_cases(max_L, max_L_2d, max_color, max_n=max_n, thin=True)
+    # the hollow lattices decide per generator family whether a cell lies in
+    # the hole: every (also anisotropic) size up to 6, undeformed
+    have = {(c['cls'], tuple(c['size'])) for c in cases}
+    cases += [c for c in domain.all_code_cases(6, 6, 1, max_n=900, with_deformations=False,
+                                               classes=['HollowRhombicCode', 'HollowPlanar3DCode'])
+              if (c['cls'], tuple(c['size'])) not in have]
     out = []
     for i, c in enumerate(cases):
         c = dict(c)
